@@ -429,10 +429,10 @@ impl BlockTree<CachedBlock> {
     }
 }
 spec fn tree_ok(b: &UnstableBlocks) -> bool {
-    b.tree.wf() && b.tree.wf_depth() && b.tree.difficulties_small(b.stability_threshold) && b.next_block_headers.wf()
+    b.tree.wf() && b.tree.wf_depth() && b.tree.difficulties_small(b.stability_threshold) && b.next_block_headers.wf() && bodies_exact(b)
 }
 proof fn lemma_tree_ok_child(a: &UnstableBlocks, b: &UnstableBlocks, i: int)
-    requires tree_ok(a), 0 <= i < a.tree.children@.len(), b.tree == a.tree.children@[i], b.stability_threshold == a.stability_threshold, b.next_block_headers.wf(),
+    requires tree_ok(a), 0 <= i < a.tree.children@.len(), b.tree == a.tree.children@[i], b.stability_threshold == a.stability_threshold, b.next_block_headers.wf(), bodies_exact(b),
     ensures tree_ok(b),
 {
     assert(a.tree.children@[i].wf());
@@ -575,16 +575,18 @@ impl BlockTree<CachedBlock> {
     // [trusted:stand-in] BlockTree::blocks (boxed `once().chain(flat_map())` iterator): all blocks of the subtree, as a vector
     #[verifier::external_body]
     fn blocks(&self) -> (r: Vec<&CachedBlock>) { unimplemented!() }
-    // [trusted:stand-in] BlockTree::remove_from_cache: drops the subtree's bodies from the shared cache (consumes the subtree)
-    #[verifier::external_body]
-    fn remove_from_cache(self) { unimplemented!() }
     // [trusted:stand-in] BlockTree::tip_depths (explicit stack walk): opaque vector, only stored in the tip-depth cache
     #[verifier::external_body]
     fn tip_depths(&self) -> (r: Vec<usize>) { unimplemented!() }
-//@extract file=canister/src/blocktree.rs in="impl BlockTree<CachedBlock>" item="fn into_root_and_remove_from_cache" props=C03
+//@extract file=canister/src/blocktree.rs in="impl BlockTree<CachedBlock>" item="fn into_root_and_remove_from_cache" props=C03,C20
 //@ ret r
+//@ sigrewrite R7 "fn into_root_and_remove_from_cache\(self\)" => "fn into_root_and_remove_from_cache(self, vp_bodies: &mut BodiesCache)"
+//@ rewrite R7 "self\.remove_from_cache\(\)" => "self.remove_from_cache(vp_bodies)"
 //@ spec
-//@| ensures r.hash == self.root.block_hash, r.header == self.root.header,
+//@| requires self.distinct(), forall|h: BlockHash| #[trigger] self.contains(h) ==> old(vp_bodies).hashes@.contains(h),
+//@| ensures
+//@|     r.hash == self.root.block_hash, r.header == self.root.header,
+//@|     forall|h: BlockHash| #[trigger] final(vp_bodies).hashes@.contains(h) <==> (old(vp_bodies).hashes@.contains(h) && !self.contains(h)),
 //@end
 }
 impl UnstableBlocks {
@@ -593,7 +595,7 @@ impl UnstableBlocks {
 //@| ensures
 //@|     final(self).tree == old(self).tree, final(self).stability_threshold == old(self).stability_threshold,
 //@|     final(self).network == old(self).network, final(self).next_block_headers == old(self).next_block_headers,
-//@|     final(self).outpoints_cache == old(self).outpoints_cache,
+//@|     final(self).outpoints_cache == old(self).outpoints_cache, final(self).vp_bodies == old(self).vp_bodies,
 //@end
 }
 
@@ -617,6 +619,8 @@ impl UnstableBlocks {
 //@| ensures
 //@|     r.is_some() <==> stable_child_spec(old(blocks)).is_some(),
 //@|     r.is_none() ==> *final(blocks) == *old(blocks),
+//@|     // C20: the stored block bodies stay exactly the blocks of the tree (the old anchor and the discarded forks are released)
+//@|     bodies_exact(final(blocks)),
 //@|     // C20: the announced headers at or below the new stable height are dropped, the others are kept, the indexes stay in step
 //@|     final(blocks).next_block_headers.wf(),
 //@|     final(blocks).next_block_headers.offered@ == old(blocks).next_block_headers.offered@,
@@ -634,6 +638,17 @@ impl UnstableBlocks {
 //@|     tree.root == old(blocks).tree.root,
 //@|     blocks.stability_threshold == old(blocks).stability_threshold, blocks.network == old(blocks).network,
 //@|     blocks.next_block_headers == old(blocks).next_block_headers,
+//@|     blocks.vp_bodies == old(blocks).vp_bodies,
+//@|     tree.distinct(), forall|h: BlockHash| #[trigger] tree.contains(h) <==> (old(blocks).tree.contains(h) && !old(blocks).tree.children@[stable_child_idx as int].contains(h)),
+//@ rewrite R7 "tree\.into_root_and_remove_from_cache\(\)" => "tree.into_root_and_remove_from_cache(&mut blocks.vp_bodies)"
+//@ after "std::mem::swap(&mut tree, &mut blocks.tree);"
+//@| proof { BlockTree::<CachedBlock>::lemma_rest_after_remove_child(&old(blocks).tree, &tree, stable_child_idx as int); }
+//@ finish ret=1
+//@| proof {
+//@|     assert forall|h: BlockHash| #[trigger] blocks.vp_bodies.hashes@.contains(h) <==> blocks.tree.contains(h) by {
+//@|         if vp_ret is Some && blocks.tree.contains(h) { assert(old(blocks).tree.children@[stable_child_spec(old(blocks)).unwrap()].contains(h)); assert(old(blocks).tree.contains(h)); }
+//@|     }
+//@| }
 //@end
 
 impl BlockTree<CachedBlock> {
@@ -669,6 +684,8 @@ fn push(blocks: &mut UnstableBlocks, utxos: &UtxoSet, block: Block) -> (r: Resul
         forall|b: int| old(blocks).next_block_headers.heights_below(b) ==> final(blocks).next_block_headers.heights_below(b),
         // C20: the arrived block's announced header is dropped (NextBlockHeaders::remove, verified), the others are kept
         old(blocks).next_block_headers.wf() ==> final(blocks).next_block_headers.wf(),
+        // C20 (assumed here): extend_cached stores the new block's body; the validation context has refused a block that is already in the tree
+        bodies_exact(old(blocks)) ==> bodies_exact(final(blocks)),
         r.is_ok() ==> final(blocks).next_block_headers@ == old(blocks).next_block_headers@.remove(block.hash),
 { unimplemented!() }
 // [assumption, stated] heights (stable + unstable, announced) stay below 2^31 - 2^17 + slack
@@ -712,7 +729,7 @@ proof fn lemma_child_depth_smaller(t: &BlockTree<CachedBlock>, i: int)
 
 //@extract file=canister/src/state.rs item="fn ingest_stable_blocks_into_utxoset" props=C03
 //@ ret r
-//@ rewrite R9 "fn pop_block\(state: &mut State, ingested_block_hash: BlockHash\)( -> [\w:<>]+)? \{" => "fn pop_block(state: &mut State, ingested_block_hash: BlockHash)\1 requires tree_ok(&old(state).unstable_blocks), stable_child_spec(&old(state).unstable_blocks).is_some(), old(state).unstable_blocks.tree.root.block_hash == ingested_block_hash, old(state).utxos.next_height >= 1, old(state).utxos.next_height < u32::MAX, ensures final(state).utxos == old(state).utxos, final(state).unstable_blocks.next_block_headers.wf(), headers_below_unchanged(old(state).stable_block_headers.by_height@, final(state).stable_block_headers.by_height@, (old(state).utxos.next_height - 1) as Height), final(state).metrics == old(state).metrics, final(state).unstable_blocks.stability_threshold == old(state).unstable_blocks.stability_threshold, 0 <= stable_child_spec(&old(state).unstable_blocks).unwrap() < old(state).unstable_blocks.tree.children@.len(), final(state).unstable_blocks.tree == old(state).unstable_blocks.tree.children@[stable_child_spec(&old(state).unstable_blocks).unwrap()], {"
+//@ rewrite R9 "fn pop_block\(state: &mut State, ingested_block_hash: BlockHash\)( -> [\w:<>]+)? \{" => "fn pop_block(state: &mut State, ingested_block_hash: BlockHash)\1 requires tree_ok(&old(state).unstable_blocks), stable_child_spec(&old(state).unstable_blocks).is_some(), old(state).unstable_blocks.tree.root.block_hash == ingested_block_hash, old(state).utxos.next_height >= 1, old(state).utxos.next_height < u32::MAX, ensures final(state).utxos == old(state).utxos, final(state).unstable_blocks.next_block_headers.wf(), bodies_exact(&final(state).unstable_blocks), headers_below_unchanged(old(state).stable_block_headers.by_height@, final(state).stable_block_headers.by_height@, (old(state).utxos.next_height - 1) as Height), final(state).metrics == old(state).metrics, final(state).unstable_blocks.stability_threshold == old(state).unstable_blocks.stability_threshold, 0 <= stable_child_spec(&old(state).unstable_blocks).unwrap() < old(state).unstable_blocks.tree.children@.len(), final(state).unstable_blocks.tree == old(state).unstable_blocks.tree.children@[stable_child_spec(&old(state).unstable_blocks).unwrap()], {"
 //@ spec
 //@| requires
 //@|     wf_ingesting(old(state)),
@@ -763,7 +780,7 @@ proof fn lemma_child_depth_smaller(t: &BlockTree<CachedBlock>, i: int)
 
 //@extract file=canister/src/state.rs item="fn ingest_stable_blocks_into_utxoset" props=C07 rename=ingest_stable_blocks_into_utxoset_c07
 //@ ret r
-//@ rewrite R9 "fn pop_block\(state: &mut State, ingested_block_hash: BlockHash\)( -> [\w:<>]+)? \{" => "fn pop_block(state: &mut State, ingested_block_hash: BlockHash)\1 requires tree_ok(&old(state).unstable_blocks), stable_child_spec(&old(state).unstable_blocks).is_some(), old(state).unstable_blocks.tree.root.block_hash == ingested_block_hash, old(state).utxos.next_height >= 1, old(state).utxos.next_height < u32::MAX, ensures final(state).utxos == old(state).utxos, final(state).unstable_blocks.next_block_headers.wf(), final(state).stable_block_headers.by_height@ == old(state).stable_block_headers.by_height@.insert((old(state).utxos.next_height - 1) as Height, ingested_block_hash), final(state).metrics == old(state).metrics, final(state).unstable_blocks.stability_threshold == old(state).unstable_blocks.stability_threshold, 0 <= stable_child_spec(&old(state).unstable_blocks).unwrap() < old(state).unstable_blocks.tree.children@.len(), final(state).unstable_blocks.tree == old(state).unstable_blocks.tree.children@[stable_child_spec(&old(state).unstable_blocks).unwrap()], {"
+//@ rewrite R9 "fn pop_block\(state: &mut State, ingested_block_hash: BlockHash\)( -> [\w:<>]+)? \{" => "fn pop_block(state: &mut State, ingested_block_hash: BlockHash)\1 requires tree_ok(&old(state).unstable_blocks), stable_child_spec(&old(state).unstable_blocks).is_some(), old(state).unstable_blocks.tree.root.block_hash == ingested_block_hash, old(state).utxos.next_height >= 1, old(state).utxos.next_height < u32::MAX, ensures final(state).utxos == old(state).utxos, final(state).unstable_blocks.next_block_headers.wf(), bodies_exact(&final(state).unstable_blocks), final(state).stable_block_headers.by_height@ == old(state).stable_block_headers.by_height@.insert((old(state).utxos.next_height - 1) as Height, ingested_block_hash), final(state).metrics == old(state).metrics, final(state).unstable_blocks.stability_threshold == old(state).unstable_blocks.stability_threshold, 0 <= stable_child_spec(&old(state).unstable_blocks).unwrap() < old(state).unstable_blocks.tree.children@.len(), final(state).unstable_blocks.tree == old(state).unstable_blocks.tree.children@[stable_child_spec(&old(state).unstable_blocks).unwrap()], {"
 //@ spec
 //@| requires
 //@|     wf_ingesting(old(state)),
